@@ -531,8 +531,10 @@ public:
           // Important to assign to a local variable (i.e. make a copy)
           // Else, for tainted_volatile, this will allow a
           // time-of-check-time-of-use attack
+          // Read the pointee through the tainted_volatile so that it is
+          // decoded with the sandbox's ABI, not the application's
           auto val_copy = std::make_unique<T_Deref>();
-          *val_copy = *val;
+          *val_copy = (*impl()).get_raw_value();
           return verifier(std::move(val_copy));
         }
       }
@@ -584,8 +586,10 @@ private:
       return nullptr;
     }
 
+    // elements in sandbox memory have the size given by the sandbox's ABI
     detail::check_range_doesnt_cross_app_sbx_boundary<T_Sbx>(
-      start, count * sizeof(T_CopyAndVerifyRangeEl));
+      start,
+      count * sizeof(tainted_volatile<T_CopyAndVerifyRangeEl, T_Sbx>));
 
     return start;
   }
@@ -602,9 +606,9 @@ private:
     auto target = std::make_unique<T_CopyAndVerifyRangeEl[]>(count);
 
     for (size_t i = 0; i < count; i++) {
-      auto p_src_i_tainted = &(impl()[i]);
-      auto p_src_i = p_src_i_tainted.get_raw_value();
-      detail::convert_type_fundamental_or_array(target[i], *p_src_i);
+      // impl()[i] is a tainted_volatile: reading it converts from the
+      // sandbox's ABI
+      target[i] = impl()[i].get_raw_value();
     }
 
     return target;
